@@ -1217,3 +1217,268 @@ Proof.
   eexists. split; [|split; [exact H2|exact H1]].
   destruct (decreases _); [apply sort_rows_perm|apply Permutation_refl].
 Qed.
+
+(* ================================================================== *)
+(* IntervalSet.groupby(get_group) and the tuple form ep[boolean Series, :] *)
+(* non-negative labels are their own positions ([wrap] does not check the upper bound) *)
+Lemma wrap_all_of_nat n ps : wrap_all n (map Z.of_nat ps) = Some ps.
+Proof.
+  induction ps as [|q r IH]; simpl; [reflexivity|].
+  rewrite IH. unfold wrap. destruct (0 <=? Z.of_nat q) eqn:E; [|lia].
+  rewrite Nat2Z.id. reflexivity.
+Qed.
+
+(* labels of the rows of a range-indexed frame that satisfy p = their positions *)
+Lemma labels_filter_range {T} (p : T -> bool) (ts : list T) : forall a,
+  labels (filter (fun r : Z * T => p (snd r)) (combine (map Z.of_nat (seq a (length ts))) ts))
+  = map Z.of_nat (filter_idx p a ts).
+Proof.
+  induction ts as [|t r IH]; intros a; simpl; [reflexivity|].
+  destruct (p t); simpl; rewrite IH; reflexivity.
+Qed.
+
+Lemma filter_idx_map {A} (p : A -> bool) (l : list A) : forall i,
+  filter_idx p i l = filter_idx (fun b : bool => b) i (map p l).
+Proof.
+  induction l as [|x r IH]; intros i; simpl; [reflexivity|].
+  rewrite IH. reflexivity.
+Qed.
+
+Lemma filter_idx_mask_pos {A} (p : A -> bool) (l : list A) : filter_idx p 0%nat l = mask_pos (map p l).
+Proof. unfold mask_pos. apply filter_idx_map. Qed.
+
+Lemma filter_combine_map_bits {A B} (p : A -> bool) (ts : list A) : forall (xs : list B),
+  map snd (filter fst (combine (map p ts) xs))
+  = map snd (filter (fun x : A * B => p (fst x)) (combine ts xs)).
+Proof.
+  induction ts as [|t r IH]; intros xs; simpl; [reflexivity|].
+  destruct xs as [|x xr]; simpl; [reflexivity|].
+  destruct (p t); simpl; rewrite IH; reflexivity.
+Qed.
+
+Lemma filter_combine_self {A} (p : A -> bool) (ts : list A) :
+  map snd (filter fst (combine (map p ts) ts)) = filter p ts.
+Proof.
+  induction ts as [|t r IH]; simpl; [reflexivity|].
+  destruct (p t); simpl; rewrite IH; reflexivity.
+Qed.
+
+(* on a well-formed object get_group is the positional selection by the mask  p(row) *)
+Lemma iset_get_group_eq_pos {T} (o : tiset T) (p : T -> bool) :
+  wf_tiset o -> iset_get_group o p = iset_get_pos o (mask_pos (map p (rows (snd o)))).
+Proof.
+  intros Hwf. unfold iset_get_group.
+  assert (Hlab : labels (filter (fun r : Z * T => p (snd r)) (snd o))
+                 = map Z.of_nat (filter_idx p 0%nat (rows (snd o)))).
+  { pose proof (wf_tiset_range o Hwf) as Hm. set (ts := rows (snd o)) in *. rewrite Hm.
+    unfold range_frame, rangeZ. apply labels_filter_range. }
+  rewrite Hlab. unfold iset_get_labels. rewrite wrap_all_of_nat, filter_idx_mask_pos. reflexivity.
+Qed.
+
+Theorem iset_get_group_total {T} (o : tiset T) (p : T -> bool) :
+  wf_tiset o ->
+  iset_get_group o p
+  = Kept (map snd (filter (fun x => p (fst x)) (combine (rows (snd o)) (fst o))))
+         (range_frame (filter p (rows (snd o)))).
+Proof.
+  intros Hwf. rewrite (iset_get_group_eq_pos o p Hwf).
+  pose proof (wf_tiset_length _ Hwf) as Hlen.
+  set (bits := map p (rows (snd o))).
+  assert (Hb2 : length bits = length (rows (snd o))) by (unfold bits; rewrite map_length; reflexivity).
+  assert (Hb1 : length bits = length (fst o)) by (rewrite Hb2; unfold rows; rewrite map_length; exact Hlen).
+  pose proof (sel_filter_idx (fst o) [] bits Hb1) as S1. simpl in S1. fold (mask_pos bits) in S1.
+  pose proof (sel_filter_idx (rows (snd o)) [] bits Hb2) as S2. simpl in S2. fold (mask_pos bits) in S2.
+  destruct (iset_get_pos_increasing o (mask_pos bits) _ Hwf (filter_idx_inc _ bits 0%nat) S1) as (tags & Ht & Hres).
+  rewrite Hres. rewrite S2 in Ht. inversion Ht as [Htags]. unfold bits.
+  rewrite filter_combine_map_bits, filter_combine_self. reflexivity.
+Qed.
+Print Assumptions iset_get_group_total.
+
+Corollary iset_get_group_pointwise {T} (o : tiset T) p out m :
+  iset_get_group o p = Kept out m ->
+  forall i s e', nth_error out i = Some (s, e') ->
+    exists q e t, nth_error (fst o) q = Some (s, e) /\ (e' = e \/ e' = e - us)
+                  /\ nth_error (rows (snd o)) q = Some t /\ loc1 m (Z.of_nat i) = Some t.
+Proof.
+  unfold iset_get_group. intros H i s e' Hi.
+  destruct (iset_get_labels_pointwise _ _ _ _ H) as (ps & _ & Hpt).
+  destruct (Hpt i s e' Hi) as (q & e & t & _ & H1 & H2 & H3 & H4).
+  exists q, e, t. repeat split; assumption.
+Qed.
+Print Assumptions iset_get_group_pointwise.
+
+
+Theorem iset_get_bseries_tuple_orig_refuted :
+  exists (o : tiset Z) mask out m,
+    wf_tiset o /\ Permutation (map fst mask) (rangeZ (length (fst o)))
+    /\ iset_get_bseries_tuple_orig o mask = Kept out m
+    /\ exists s e t p, nth_error out 0 = Some (s, e) /\ loc1 m 0 = Some t
+                       /\ nth_error (fst o) p = Some (s, e) /\ nth_error (rows (snd o)) p <> Some t.
+Proof. unfold iset_get_bseries_tuple_orig. exact iset_get_bseries_orig_refuted. Qed.
+Print Assumptions iset_get_bseries_tuple_orig_refuted.
+
+(* exactly WHICH ends the constructor gives back 1 us earlier: those equal to the next start, no other *)
+Theorem trim_touch_exact l : forall i s e, nth_error l i = Some (s, e) ->
+  nth_error (trim_touch l) i
+  = Some (s, match nth_error l (S i) with
+             | Some (s', _) => if e =? s' then e - us else e
+             | None => e
+             end).
+Proof.
+  induction l as [|[s0 e0] r IH]; intros i s e H; [destruct i; discriminate|].
+  destruct i as [|i].
+  - simpl in H. inversion H; subst. simpl. destruct r as [|[s' e'] r']; reflexivity.
+  - simpl in H. change (nth_error (trim_touch ((s0, e0) :: r)) (S i)) with (nth_error (trim_touch r) i).
+    rewrite (IH i s e H). reflexivity.
+Qed.
+Print Assumptions trim_touch_exact.
+
+(* ================================================================== *)
+(* merge_group(reset_index=True)                                       *)
+(* ---- the RangeIndex 0..n-1 is strictly increasing, hence sorted and duplicate-free ---- *)
+Lemma strict_from_seq n : forall a lo, lo < Z.of_nat a -> strict_from lo (map Z.of_nat (seq a n)) = true.
+Proof.
+  induction n as [|n IH]; intros a lo H; simpl; [reflexivity|].
+  rewrite IH by lia. destruct (lo <? Z.of_nat a) eqn:E; [reflexivity|lia].
+Qed.
+
+Lemma strict_incb_rangeZ n : strict_incb (rangeZ n) = true.
+Proof.
+  unfold rangeZ. destruct n as [|n]; simpl; [reflexivity|]. apply strict_from_seq. lia.
+Qed.
+
+Lemma sortZ_rangeZ n : sortZ (rangeZ n) = rangeZ n.
+Proof. apply sortedZ_sortZ_id. apply strict_incb_sorted. apply strict_incb_rangeZ. Qed.
+
+(* ---- .loc[0..n-1] on a RangeIndex frame is the frame ---- *)
+Lemma sel_seq_self {A} (xs : list A) : forall pre, sel (pre ++ xs) (seq (length pre) (length xs)) = Some xs.
+Proof.
+  induction xs as [|x r IH]; intros pre; simpl; [reflexivity|].
+  rewrite nth_error_app2, Nat.sub_diag by lia. simpl.
+  replace (pre ++ x :: r) with ((pre ++ [x]) ++ r) by (rewrite <- app_assoc; reflexivity).
+  replace (S (length pre)) with (length (pre ++ [x])) by (rewrite app_length; simpl; lia).
+  rewrite IH. reflexivity.
+Qed.
+
+Lemma loc_range_self {T} (xs : list T) : loc (range_frame xs) (rangeZ (length xs)) = Some (range_frame xs).
+Proof.
+  assert (Hix : Forall (fun i => (i < length xs)%nat) (seq 0 (length xs))).
+  { apply Forall_forall. intros i Hi. apply in_seq in Hi. lia. }
+  destruct (loc_range_some xs _ Hix) as (m & tags & Hloc & Hrows & Hsel).
+  fold (rangeZ (length xs)) in Hloc. rewrite Hloc. f_equal.
+  pose proof (sel_seq_self xs []) as Hs. simpl in Hs. rewrite Hs in Hsel. inversion Hsel as [Ht].
+  pose proof (loc_labels _ _ _ Hloc) as Hlab.
+  assert (Hlen : length m = length xs).
+  { apply (f_equal (@length Z)) in Hlab. unfold labels in Hlab. rewrite map_length, rangeZ_length in Hlab. exact Hlab. }
+  rewrite (frame_is_range m) by (rewrite Hlab, Hlen; reflexivity).
+  rewrite Hrows, <- Ht. reflexivity.
+Qed.
+
+(* ---- the TsGroup constructor on RangeIndex data and RangeIndex metadata of the same length ---- *)
+Lemma mk_group_range {M T} (xs : list M) (rs : list T) : length rs = length xs ->
+  mk_group (range_frame xs) (range_frame rs) = Some (range_frame xs, range_frame rs).
+Proof.
+  intros Hl. unfold mk_group, lookup_all.
+  change (map fst (range_frame xs)) with (labels (range_frame xs)).
+  rewrite !labels_range_frame, sortZ_rangeZ, Hl.
+  rewrite (nodupb_complete _ (strict_incb_nodup _ (strict_incb_rangeZ (length xs)))).
+  rewrite loc_range_self.
+  replace (list_eqb (rangeZ (length xs)) (rangeZ (length xs))) with true
+    by (symmetry; apply list_eqb_eq; reflexivity).
+  reflexivity.
+Qed.
+
+(* ---- (member, row found under the member's key) when the metadata index IS the key list ---- *)
+Lemma pairs_lookup {M T} (F : frame T) : forall (d : list (Z * M)) (m : frame T),
+  labels m = map fst d ->
+  (forall k t, In (k, t) m -> loc1 F k = Some t) ->
+  map (fun c : Z * M => (snd c, loc1 F (fst c))) d = combine (map snd d) (map Some (rows m)).
+Proof.
+  induction d as [|[k x] r IH]; intros m Hlab Hin; destruct m as [|[k' t] mr]; simpl in *; try discriminate; [reflexivity|].
+  inversion Hlab as [[Hk Hr]]. subst k'.
+  rewrite (Hin k t (or_introl eq_refl)). f_equal.
+  apply IH; [exact Hr|]. intros k0 t0 H0. apply Hin. right. exact H0.
+Qed.
+
+(* the hypotheses used: unique keys, metadata index = key list (both follow from wf_group) *)
+Lemma triples_pairs {M T} (o : list (Z * M) * frame T) :
+  NoDup (map fst (fst o)) -> labels (snd o) = map fst (fst o) ->
+  map (fun t => (snd (fst t), snd t)) (triples o) = combine (map snd (fst o)) (map Some (rows (snd o))).
+Proof.
+  intros Hnd Hlab. unfold triples. rewrite map_map. simpl.
+  apply pairs_lookup; [exact Hlab|].
+  intros k t Hin. apply loc1_nodup_In; [rewrite Hlab; exact Hnd|exact Hin].
+Qed.
+
+Lemma combine_app_eq {A B} (l1 l2 : list A) : forall (r1 r2 : list B), length l1 = length r1 ->
+  combine (l1 ++ l2) (r1 ++ r2) = combine l1 r1 ++ combine l2 r2.
+Proof.
+  induction l1 as [|x l IH]; intros r1 r2 H; destruct r1 as [|y r]; simpl in *; try discriminate; [reflexivity|].
+  f_equal. apply IH. lia.
+Qed.
+
+Lemma wf_group_facts {M T} (o : tgroup M T) : wf_group o ->
+  NoDup (map fst (fst o)) /\ labels (snd o) = map fst (fst o) /\ length (snd o) = length (fst o).
+Proof.
+  intros [Hs Hl]. split; [apply strict_incb_nodup; exact Hs|]. split; [exact Hl|].
+  apply (f_equal (@length Z)) in Hl. unfold labels in Hl. rewrite !map_length in Hl. exact Hl.
+Qed.
+
+(* ---- merge_group(a, b, reset_index=True) ---- *)
+(* what the model computes, under the weakest hypothesis: the two metadata frames have as many rows
+   as the groups have members *)
+Lemma group_merge_reset_value {M T} (a b : tgroup M T) :
+  length (snd a) = length (fst a) -> length (snd b) = length (fst b) ->
+  group_merge true a b
+  = Some (range_frame (map snd (fst a ++ fst b)), range_frame (rows (snd a ++ snd b))).
+Proof.
+  intros Ha Hb. unfold group_merge.
+  replace (combine (rangeZ (length (fst a ++ fst b))) (map snd (fst a ++ fst b)))
+    with (range_frame (map snd (fst a ++ fst b)))
+    by (unfold range_frame; rewrite map_length; reflexivity).
+  apply mk_group_range. unfold rows. rewrite !map_length, !app_length. lia.
+Qed.
+
+Theorem group_merge_reset_attach {M T} (a b : tgroup M T) :
+  wf_group a -> wf_group b ->
+  exists o', group_merge true a b = Some o'
+    /\ map fst (fst o') = rangeZ (length (fst a) + length (fst b))
+    /\ map (fun t => (snd (fst t), snd t)) (triples o')
+       = map (fun t => (snd (fst t), snd t)) (triples a ++ triples b)
+    /\ wf_group o'.
+Proof.
+  intros Hwa Hwb.
+  destruct (wf_group_facts a Hwa) as (Hna & Hla & Hlena).
+  destruct (wf_group_facts b Hwb) as (Hnb & Hlb & Hlenb).
+  pose proof (group_merge_reset_value a b Hlena Hlenb) as Hv.
+  eexists. split; [exact Hv|].
+  assert (Hwf : wf_group (range_frame (map snd (fst a ++ fst b)), range_frame (rows (snd a ++ snd b)))).
+  { unfold group_merge in Hv. eapply mk_group_wf. exact Hv. }
+  split; [|split; [|exact Hwf]].
+  - simpl. change (map fst (range_frame (map snd (fst a ++ fst b))))
+      with (labels (range_frame (map snd (fst a ++ fst b)))).
+    rewrite labels_range_frame, map_length, app_length. reflexivity.
+  - destruct (wf_group_facts _ Hwf) as (Hno & Hlo & _).
+    rewrite (triples_pairs _ Hno Hlo). simpl.
+    change (map snd (range_frame (map snd (fst a ++ fst b))))
+      with (rows (range_frame (map snd (fst a ++ fst b)))).
+    rewrite !rows_range_frame.
+    rewrite (map_app _ (triples a) (triples b)), (triples_pairs a Hna Hla), (triples_pairs b Hnb Hlb).
+    unfold rows. rewrite !map_app.
+    apply combine_app_eq. rewrite !map_length. symmetry. exact Hlena.
+Qed.
+Print Assumptions group_merge_reset_attach.
+
+(* interleaved keys: a has keys 1, 5, b has keys 2, 3 (members 10 20 / 30 40, rows 100 200 / 300 400).
+   The result is keyed 0..3, members and rows in argument order, every member with its own row. *)
+Example group_merge_reset_interleaved :
+  let a : tgroup Z Z := ([(1, 10); (5, 20)], [(1, 100); (5, 200)]) in
+  let b : tgroup Z Z := ([(2, 30); (3, 40)], [(2, 300); (3, 400)]) in
+  group_merge true a b
+  = Some ([(0, 10); (1, 20); (2, 30); (3, 40)], [(0, 100); (1, 200); (2, 300); (3, 400)])
+  /\ option_map triples (group_merge true a b)
+     = Some [(0, 10, Some 100); (1, 20, Some 200); (2, 30, Some 300); (3, 40, Some 400)]
+  /\ triples a ++ triples b
+     = [(1, 10, Some 100); (5, 20, Some 200); (2, 30, Some 300); (3, 40, Some 400)].
+Proof. vm_compute. repeat split; reflexivity. Qed.
+Print Assumptions group_merge_reset_interleaved.
